@@ -668,3 +668,35 @@ def replay_scalar_witness(w: dict) -> Tuple[bool, str]:
     if bool(got) != keep:
         return True, f"{backend} {text!r} -> {payload[0]!r} {payload[1]} on {rows['vt_item'][0]}: ORM returns {got}, OData keeps={keep}"
     return False, f"{backend} {text!r} now agrees on the recorded row"
+
+
+# ====================================================================== in-list length sweep (structural)
+def inlist_sweep(_arg=None) -> List[dict]:
+    """`n in (v1 .. vL)` for L in 2, 50, 1001: every member must arrive in the statement, in order (structural
+    comparison of the parsed statement with the filter, not a solver verdict)."""
+    out: List[dict] = []
+    for L in (2, 50, 1001):
+        vals = list(range(L))
+        text = "n in (" + ", ".join(str(v) for v in vals) + ")"
+        for b in BACKENDS:
+            base = {"name": f"inlist{L}", "family": "inlist", "filter": f"n in (0, 1, ... {L - 1})  [{L} members]", "ob": "inlist",
+                    "backend": b, "features": [], "solver_s": 0.0, "nontrivial": False}
+            st, payload = build(b, text)
+            if st != "ok":
+                out.append(dict(base, ob="accept", status=st, why=payload))
+                continue
+            try:
+                tree = parse_program(b, payload[0], payload[1])
+                ins = [n for n in SP.walk(tree) if n[0] == "in"]
+                got = [(i[2] if i[0] == "param" else i[1]) for i in ins[0][3]] if ins else None
+            except (SP.SqlIllFormed, SP.SqlUnsupported) as e:
+                got = f"unparsable: {e}"
+            if got == vals:
+                out.append(dict(base, status="discharged", detail=f"{L} members present in order"))
+            else:
+                n = len(got) if isinstance(got, list) else got
+                out.append(dict(base, status="violation", what=f"in-list of {L} members arrives with {n} members in the statement",
+                                witness={"filter": text, "term": ["in", ["field", "n"], [["int", v] for v in vals]], "backend": b,
+                                         "rows": {"vt_item": [dict(NEUTRAL_ITEM, n=L - 1)]}, "sql": payload[0][-200:],
+                                         "members_in_statement": n}))
+    return out
